@@ -172,6 +172,8 @@ class World:
                 kw["universes"] = self._container(us)
             if ls:
                 kw["links"] = self._container(ls)
+            if len(op) > 4 and op[4] is not None:
+                kw["uid"] = op[4]            # caller-supplied uid: never checked for uniqueness by the library
             return ("id", cls(**kw))
         if t == "NU":
             vs = [g(i, V) for i in op[1]]
@@ -438,6 +440,13 @@ def gen_history(rng, weights, nops, seed_ops=None):
             elif t == "UNL":
                 if vs:
                     op = ["UNL", pick(vs), pick(vs), rng.random() < 0.5]
+                    # mostly unlink pairs that ARE joined (the two ends of an existing link), so something is removed
+                    snap_l = [o._vertices for o in w.objs if kind_of(o) in LINK_KINDS]
+                    joined = [x for x in snap_l if len(x) >= 2 and x[0] is not None and x[1] is not None]
+                    if joined and rng.random() < 0.7:
+                        x = pick(joined)
+                        a_, b_ = w.id_of(x[0]), w.id_of(x[1])
+                        op = ["UNL", a_, b_, rng.random() < 0.5] if rng.random() < 0.5 else ["UNL", b_, a_, rng.random() < 0.5]
             elif t in ("UAV", "URV"):
                 if us and vs:
                     op = [t, pick(us), pick(vs)]
